@@ -33,12 +33,25 @@ for no bytes) followed by "struct S:" and every member once, in order, with its 
 the same text plus colour codes; every style / data type / convention / mode gives the same text; dumpstruct(S) / (S, None) raise ValueError.
 Both styles also go to the model.  Excluded (unmodified library, reported): the API-built instance with colour on raises AttributeError
 ('_sizes') - counted as feature `v9:forms:api-instance:colour:AttributeError-_sizes`, judged as soon as it returns a text.
+
+Round-10 probe (harness/v10_c19.py): dumpstruct(instance) of values CHANGED AFTER PARSING.  Generated structures AND unions (integers of 1..16
+bytes, arrays and 2-d arrays of them, char / wchar arrays, enum, floats, nested structure, a member and an array of a named structure, bit-fields,
+a union inside a structure, null-terminated / counted tail; unions mostly with an integer array or the array of structures as the largest member)
+x endianness spelling x compiled / interpreted x packed / aligned; the instance from every entry point (class call with bytes / bytearray /
+memoryview / BytesIO / real file, reads, read, default-constructed, built from values); a walk of member assignments (s.f = v, s.arr = [...],
+u.word = v, u.in.x = v, s.name = longer text) and IN-PLACE changes (s.arr[i] = v, slices, reverse, s.m[i][j] = v, u.raw[3] = 0xee,
+u.pts[2].y = 0xab, s.pts[i] = P(...), s.d.append, s.v.raw[i] = v), dumped before the first and after each change, colour off and on, string and
+print.  Oracle: the hex dump is a dump of exactly instance.dumps() (= bytes(instance)) at that moment - not of bytes cached at parse time -, the
+listing shows every member's current value, the two's complement of a newly assigned integer stands at the member's place (computed by the
+harness for packed layouts / the member a union is written from), dumping leaves the instance unchanged, colour and output mode are cosmetic,
+dumpstruct(S, instance.dumps()) shows the same hex dump; each dump also goes to the model.  Same `_sizes` exclusion as v9 (API-built structure,
+colour on; feature `v10:changed:api-instance:colour:AttributeError-_sizes`).
 """
 from __future__ import annotations
 
 import re
 
-from .. import common, impl, t6_c19, v9_c19
+from .. import common, impl, t6_c19, v9_c19, v10_c19
 from ..common import A, Case, Result, mkrng, parse_sexp, run_driver, sx
 
 NORMAL = "\033[1;0m"
@@ -99,7 +112,11 @@ def run(env) -> Result:
                 "(0 - empty struct, zero-length arrays, x[EOF] with nothing left - 1, 2, 15, 16, 17, 31, 32, 33, 48, random) x endianness "
                 "spelling x compiled/interpreted x packed/aligned, dumped as instance (class call, stream, reads, read, API-built) and as "
                 "(type, data) with bytes / bytearray / memoryview, positional / keyword, colour off/on, string/print, defaults; no data -> "
-                "ValueError. distinct = by full argument tuple; non-trivial = data longer than one byte / width > 8")
+                "ValueError; dumpstruct of changed instances (v10): generated structures and unions (largest member an array) x endianness x "
+                "compiled/interpreted x packed/aligned x every way to come by an instance, dumped after each of a walk of member assignments and "
+                "in-place changes of container members (list element, slice, struct-in-array attribute, nested union) against "
+                "instance.dumps() at that moment and the members' current values, colour off/on, string/print. "
+                "distinct = by full argument tuple; non-trivial = data longer than one byte / width > 8")
     utils = __import__("dissect.cstruct.utils", fromlist=["x"]) if False else None
     dc = impl.dc()
     from dissect.cstruct import utils as U
@@ -294,6 +311,8 @@ def run(env) -> Result:
     t6_c19.pack_widths(env, res, U, viol, lines, metas)
     # ---- round 9 (v9): both call styles of dumpstruct x data type x passing convention x colour x output mode on every data length (0 included)
     v9_c19.dumpstruct_forms(env, res, U, dc, viol, lines, metas)
+    # ---- round 10 (v10): dumpstruct(instance) of structures and unions CHANGED after parsing (member assignment and in-place changes)
+    v10_c19.dumpstruct_changed(env, res, U, dc, viol, lines, metas)
 
     # ---- model correspondence
     answers = run_driver(lines) if env["driver_ok"] else [None] * len(lines)
